@@ -57,6 +57,7 @@ import (
 	"fmt"
 	"io"
 	"os"
+	"runtime"
 	"sort"
 	"strings"
 	"sync"
@@ -320,6 +321,7 @@ const c17Jitter = 1237 * time.Millisecond
 const c17FirstBound = 10 * time.Minute
 
 type c17RouterCall struct {
+	Gid   uint64 // goroutine that made the call (a round's lookups run on one goroutine)
 	Key   string
 	At    time.Duration
 	Done  bool
@@ -413,9 +415,10 @@ type c17H struct {
 	logIdx               int
 	chain                int
 	reported             map[peer.ID]int
-	lookups              []c17Lookup   // round lookups answered since the last quiet point
-	cleanSince           time.Duration // start of the current clean window, -1 if not clean
-	faultFree            time.Duration // end of the last fault window (restarts do not reset it), -1 while a fault is active
+	lookups              []c17Lookup                // round lookups answered since the last quiet point
+	sendRounds           map[string]map[uint64]bool // key -> goroutines whose rounds sent it since the last quiet point
+	cleanSince           time.Duration              // start of the current clean window, -1 if not clean
+	faultFree            time.Duration              // end of the last fault window (restarts do not reset it), -1 while a fault is active
 	prevClean            time.Duration
 	inWindow             bool // a fault window is open
 	cleanCut             bool // the open fault window is a clean-cut full outage
@@ -452,7 +455,8 @@ type c17Router struct{ h *c17H }
 
 func (r *c17Router) GetClosestPeers(ctx context.Context, key string) ([]peer.ID, error) {
 	h := r.h
-	c := &c17RouterCall{Key: key, At: h.s.Now()}
+	gid, _ := c17Goids()
+	c := &c17RouterCall{Gid: gid, Key: key, At: h.s.Now()}
 	h.routerMu.Lock()
 	h.routerLog = append(h.routerLog, c)
 	h.routerMu.Unlock()
@@ -482,8 +486,36 @@ func (w *c17Sender) SendRequest(ctx context.Context, p peer.ID, m *pb.Message) (
 }
 
 func (w *c17Sender) SendMessage(ctx context.Context, p peer.ID, m *pb.Message) error {
+	// sendProviderRecords starts its sender goroutines from the goroutine that
+	// ran the round's lookups: the creator of the calling goroutine identifies
+	// the round this message belongs to.
+	_, parent := c17Goids()
+	w.h.noteSend(string(m.GetKey()), parent)
 	w.h.signal()
 	return w.inner.SendMessage(ctx, p, m)
+}
+
+// c17Goids returns the id of the calling goroutine and of the goroutine that
+// created it (0 if unknown), parsed from the goroutine's own stack trace.
+// Harness-side observation only: it attributes lookups and messages to rounds
+// for the label of recipients-nearest violations.
+func c17Goids() (self, parent uint64) {
+	buf := make([]byte, 16<<10)
+	st := string(buf[:runtime.Stack(buf, false)])
+	fmt.Sscanf(st, "goroutine %d ", &self)
+	if i := strings.LastIndex(st, " in goroutine "); i >= 0 {
+		fmt.Sscanf(st[i:], " in goroutine %d", &parent)
+	}
+	return
+}
+
+func (h *c17H) noteSend(key string, round uint64) {
+	h.routerMu.Lock()
+	if h.sendRounds[key] == nil {
+		h.sendRounds[key] = map[uint64]bool{}
+	}
+	h.sendRounds[key][round] = true
+	h.routerMu.Unlock()
 }
 
 func (h *c17H) selfAddrs() []ma.Multiaddr {
@@ -710,7 +742,7 @@ func (h *c17H) answer(p *sim.Parked) {
 		// exploration); the others are connectivity probes and the prefix-length
 		// estimate. Only used to label recipients-nearest violations.
 		if h.byMh[c.Key] != nil || (len(c.Key) == 34 && strings.Trim(c.Key[6:], "\x00") == "") {
-			h.lookups = append(h.lookups, c17Lookup{key: c.Key, target: simnet.KadOfKey(c.Key), reply: ids})
+			h.lookups = append(h.lookups, c17Lookup{gid: c.Gid, key: c.Key, target: simnet.KadOfKey(c.Key), reply: ids})
 		}
 		for _, id := range ids {
 			h.reported[id] = h.chain
@@ -941,74 +973,68 @@ func (h *c17H) need(k *c17Key) []peer.ID { return h.nearest(k.kad, h.cfg.r) }
 
 // c17Lookup is one answered lookup that belongs to a provide round.
 type c17Lookup struct {
+	gid    uint64
 	key    string
 	target simnet.Kad
 	reply  []peer.ID
 }
 
-// exploredFor returns the peers the router named, since the last quiet point,
-// in lookups that can belong to a region round of k: exploration lookups
-// whose target lies in k's scheduled region.
-// It only labels recipients-nearest violations (did the provider know the
-// peer it left out?); it decides nothing.
-func (h *c17H) exploredFor(k *c17Key) (known map[peer.ID]bool, nLookups, stale int) {
-	plen := -1
-	if h.prov != nil {
-		bits := kadBits(k.kad, 32)
-		for _, p := range provider.VerifScheduledPrefixes(h.prov) {
-			if strings.HasPrefix(bits, p) {
-				plen = len(p)
-			}
-			if plen < 0 && len(p) > 0 {
-				plen = -1
-			}
-		}
+// unexploredRound looks for the observable of the open finding
+// recipients-nearest-unexplored among the rounds that sent k since the last
+// quiet point: a round whose exploration (the lookups made by the round's own
+// goroutine, for peer ids of kbucket's preimage table) ended with at least two
+// consecutive lookups that placed no new peer inside the explored zone, and
+// never placed one of the nearest peers `need` inside it. It only labels
+// violations of the recipients clauses; it decides nothing.
+//
+// "Inside": the peers of a reply that are farthest from the lookup target
+// only mark the boundary of what the reply covers (the provider expects to
+// meet them again when it explores their side); the others lie inside.
+func (h *c17H) unexploredRound(k *c17Key, need []peer.ID) (note string, found bool) {
+	h.routerMu.Lock()
+	var rounds []uint64
+	for g := range h.sendRounds[string(k.mh)] {
+		rounds = append(rounds, g)
 	}
-	if plen < 0 {
-		plen = 0
-	}
-	out := map[peer.ID]bool{}
-	all := map[peer.ID]bool{}
-	for _, l := range h.lookups {
-		// (the single-key lookup for k itself always names the nearest peers and
-		// the single-key path addresses exactly them, so a round that went wrong
-		// was a region round: only exploration lookups count)
-		if h.byMh[l.key] != nil {
-			continue
-		}
-		// The peers of a reply that are farthest from the lookup target only
-		// mark the boundary of what the reply covers; the provider expects to
-		// meet them again when it explores their side. They count as known only
-		// if some reply places them strictly inside.
-		minCPL := 257
-		for _, p := range l.reply {
-			if c := l.target.CPL(simnet.KadOfPeer(p)); c < minCPL {
-				minCPL = c
+	h.routerMu.Unlock()
+	sort.Slice(rounds, func(i, j int) bool { return rounds[i] < rounds[j] })
+	for _, g := range rounds {
+		inside := map[peer.ID]bool{}
+		n, stale := 0, 0
+		for _, l := range h.lookups {
+			if l.gid != g || h.byMh[l.key] != nil {
+				continue // another round, or the single-key lookup of a key
 			}
-		}
-		// "known": placed inside by a lookup aimed at the key's own scheduled
-		// region. The stale-lookup count runs over every exploration lookup since
-		// the last quiet point: an exploration that had to broaden its prefix
-		// leaves the region, and concurrent explorations cannot be told apart.
-		inRegion := l.target.CPL(k.kad) >= plen
-		fresh := false
-		for _, p := range l.reply {
-			if l.target.CPL(simnet.KadOfPeer(p)) > minCPL {
-				if !all[p] {
-					fresh = true
-				}
-				all[p] = true
-				if inRegion {
-					out[p] = true
+			minCPL := 257
+			for _, p := range l.reply {
+				if c := l.target.CPL(simnet.KadOfPeer(p)); c < minCPL {
+					minCPL = c
 				}
 			}
+			fresh := false
+			for _, p := range l.reply {
+				if l.target.CPL(simnet.KadOfPeer(p)) > minCPL && !inside[p] {
+					inside[p], fresh = true, true
+				}
+			}
+			n++
+			if fresh {
+				stale = 0
+			} else {
+				stale++
+			}
 		}
-		nLookups++
-		if !fresh {
-			stale++
+		var unknown []peer.ID
+		for _, p := range need {
+			if !inside[p] {
+				unknown = append(unknown, p)
+			}
+		}
+		if n > 0 && stale >= 2 && len(unknown) > 0 {
+			return fmt.Sprintf("; the exploration of the round that sent it (%d lookups on one goroutine) ended after %d consecutive lookups that named no new peer, without any reply having placed {%s} inside the explored zone", n, stale, sortedNames(h.u, unknown)), true
 		}
 	}
-	return out, nLookups, stale
+	return "", false
 }
 
 // observe folds finished ADD_PROVIDER calls into the per-key accumulators and
@@ -1143,26 +1169,14 @@ func (h *c17H) fixpoint(quiet bool) {
 		wasPending := k.pendingFirst
 		if judged && !k.spanning {
 			s.Count("probe_round_judged")
-			// Were all of the nearest peers placed strictly inside some reply to
-			// an exploration lookup of this key's region? If not, the round went
-			// wrong because exploration stopped early (open finding
-			// recipients-nearest-unexplored), not because of the allocation.
+			// Did the round go wrong because its exploration stopped early (open
+			// finding recipients-nearest-unexplored) rather than because of the
+			// allocation? Only evaluated when a violation is about to be raised.
 			label, note := "", ""
-			known, nLook, stale := h.exploredFor(k)
-			var unknown []peer.ID
-			for _, p := range need {
-				if !known[p] {
-					unknown = append(unknown, p)
+			classify := func() {
+				if n, ok := h.unexploredRound(k, need); ok {
+					label, note = "-unexplored", n
 				}
-			}
-			if len(unknown) > 0 && nLook > 0 && stale >= 2 {
-				// the observable that identifies the open finding: exploration lookups
-				// that brought no new peer (two in a row end an exploration) and a
-				// nearest peer that no reply aimed at the key's region ever placed
-				// inside the explored zone. (Concurrent explorations interleave in the
-				// router log, so "in a row" cannot be demanded here.)
-				label = "-unexplored"
-				note = fmt.Sprintf("; of the %d exploration lookups of this instant %d named no new peer, and exploration ended without any reply aimed at the key's region having placed {%s} inside the explored zone", nLook, stale, sortedNames(h.u, unknown))
 			}
 			switch {
 			case !complete:
@@ -1176,11 +1190,13 @@ func (h *c17H) fixpoint(quiet bool) {
 					s.Count(fmt.Sprintf("soft_nearest_r%d_K%d", c.r, c.K))
 					break
 				}
+				classify()
 				s.Violate("recipients-nearest"+label, "round of %s at %v reached {%s}; the %d nearest swarm members are {%s} (r=%d, router K=%d, swarm of %d)%s", k.name, now, sortedNames(h.u, mapKeys(k.ok)), len(need), sortedNames(h.u, need), c.r, c.K, len(h.swarm), note)
 			case c.K == c.r && len(k.all) != len(need):
 				// rule recipients-exact: with K == r the recipients are exactly the r
 				// nearest. (An extra recipient that stems from a region round whose
 				// exploration stopped early is the same open finding.)
+				classify()
 				rule := "recipients-exact"
 				if label != "" {
 					rule = "recipients-nearest-unexplored"
@@ -1221,6 +1237,9 @@ func (h *c17H) fixpoint(quiet bool) {
 		// no round is in flight: later messages belong to later rounds
 		h.chain++
 		h.lookups = h.lookups[:0]
+		h.routerMu.Lock()
+		h.sendRounds = map[string]map[uint64]bool{}
+		h.routerMu.Unlock()
 	}
 	h.quiet = quiet
 
@@ -1621,7 +1640,7 @@ func newC17H(s *sim.Sim, c *c17Cfg) (*c17H, func()) {
 
 	h := &c17H{s: s, cfg: c, u: simnet.NewUniverse(seed, 0), rng: newSubRng(s, "world"),
 		wake: make(chan struct{}, 1), member: map[peer.ID]bool{}, usedPeer: map[int]bool{}, failing: map[peer.ID]bool{},
-		byMh: map[string]*c17Key{}, reported: map[peer.ID]int{}, due: map[string]time.Duration{}, stepRounds: map[string]int{}, failLat: c.failLat, cleanSince: -1, faultFree: -1, prevClean: -1, lastOnlineAt: -1, lastFailAt: -1, chain: 1}
+		byMh: map[string]*c17Key{}, reported: map[peer.ID]int{}, due: map[string]time.Duration{}, stepRounds: map[string]int{}, sendRounds: map[string]map[uint64]bool{}, failLat: c.failLat, cleanSince: -1, faultFree: -1, prevClean: -1, lastOnlineAt: -1, lastFailAt: -1, chain: 1}
 	h.boundC = (c.interval+c.maxDelay)*105/100 + time.Second
 	h.snd = &simnet.Sender{S: s, U: h.u}
 	h.ds = simds.New(s, "ds")
